@@ -19,7 +19,9 @@ def _extra(lines, verdicts):
         "maintenance_steps": sum(ln.count(" m~") for ln in lines),
         "byte_payload_ops_in_histories": sum(ln.split("|")[0].count(" B/") for ln in lines),
         "payload_decode_outcomes": {t: sum(1 for ln in lines if ln.startswith("Pb ") and ln.split("|", 1)[1].strip().startswith(t))
-                                    for t in ("a:", "rDeserialization", "rWrongTokenRange", "rShardNum", "none")},
+                                    for t in ("a:", "rDeserialization:ByteLengthMismatch", "rDeserialization:ExpectedNonNull",
+                                              "rDeserialization:LengthDeser", "rDeserialization:RawCqlBytesRead",
+                                              "rWrongTokenRange", "rShardNum", "none")},
         "refresh_ops_through_cluster_state": sum(ln.split("|")[0].count(" R/") for ln in lines),
     }
 
@@ -59,6 +61,18 @@ def _post(lines, verdicts):
     for tag, need in (("a:", (10000, 50000)), ("rD", (10000, 50000)), ("rW", (5000, 25000)), ("rS", (2000, 10000)), ("no", (50, 250))):
         if pb.get(tag, 0) < need[idx]:
             out.append(("diff", f"(coverage Pb {tag})", f"diff coverage-floor Pb-outcome={tag} got={pb.get(tag, 0)} expected>={need[idx]}"))
+    leaf = {}
+    for ln in lines:
+        if ln.startswith("Pb ") and "| rDeserialization:" in ln:
+            k = ln.split("| rDeserialization:", 1)[1].strip()
+            leaf[k] = leaf.get(k, 0) + 1
+    for k, need in (("ByteLengthMismatch", (2000, 10000)), ("ExpectedNonNull", (3000, 15000)), ("LengthDeser", (400, 2000)),
+                    ("RawCqlBytesRead", (6000, 30000))):
+        if leaf.get(k, 0) < need[idx]:
+            out.append(("diff", f"(coverage Pb leaf {k})", f"diff coverage-floor Pb-deserialization-leaf={k} got={leaf.get(k, 0)} expected>={need[idx]}"))
+    for k in leaf:
+        if k not in ("ByteLengthMismatch", "ExpectedNonNull", "LengthDeser", "RawCqlBytesRead"):
+            out.append(("diff", f"(Pb leaf {k})", f"diff unexpected-deserialization-leaf {k} x{leaf[k]}"))
     for name, got, need in (("steps", steps, (400000, 3000000)[idx]), ("refresh-through-ClusterState", r_ops, (20000, 100000)[idx]),
                             ("maintenance-steps", maint, (50000, 400000)[idx]), ("refused-payloads", rej, (5000, 50000)[idx]),
                             ("histories-with-unknown-replicas", unk, (2000, 10000)[idx]),
@@ -90,13 +104,13 @@ SPEC = {
              "that keep / drop / de-tablet / forget tables; a fifth of the random payload events are byte strings (B ops: valid "
              "encodings with 0-2 corruptions); Pb RawTablet::from_custom_payload alone on 8 generated/corrupted byte strings per random "
              "history (truncation, trailing bytes, bit flips, rewritten length/count fields incl. -1/-2/0/MAX/MIN, short uuid/shard, "
-             "missing fields, null list, trash, absent key), decoded content and error class compared exactly. non-trivial = histories with at least 2 steps; distinct = distinct case lines"),
+             "missing fields, null list, trash, absent key), decoded content, error class and the LEAF KIND of a deserialisation error compared exactly. non-trivial = histories with at least 2 steps; distinct = distinct case lines"),
     "nontrivial": lambda ln: ln.startswith("Pb ") or len(ln.split("|")[0].split()) >= 6,
     "trusted_base": [
         "spec_step / spec_entry / spec_lookup / restrict_dc (coq/Model/Tablets.v PART 2) are the property text transcribed",
         "hooks (pass-through, #[cfg(scylla_verif)]): scylla::routing::locator::verif_tablets (driver struct around TabletsInfo, "
         "observations of flags / tablet lists / tablet_for_token / replicas_for_token / dc_replicas_for_token, raw_tablet_from_payload = "
-        "RawTablet::from_custom_payload with the decoded content visible, TabletsInfo::perform_maintenance), "
+        "RawTablet::from_custom_payload with the decoded content visible, raw_tablet_from_payload_full = the same with the DeserializationError handed out, TabletsInfo::perform_maintenance), "
         "scylla::cluster::verif_update_tablets (the real RawTablet::from_custom_payload + the real ClusterState::update_tablets on a "
         "ClusterState value built around the driver's TabletsInfo), scylla::cluster::verif_tablets_maintenance (the real "
         "ClusterState::perform_tablets_maintenance), scylla::cluster::verif_node::node_without_pool",
@@ -108,7 +122,7 @@ SPEC = {
     ],
     "assumptions": [
         "payload bounds are i64 values (Forall op_i64 hist): they are decoded from 8 bytes",
-        "byte payloads: the typed deserialisers of tuple<bigint,bigint,list<tuple<uuid,int>>> are modelled in coq/Model/TabletsPayload.v on top of the read primitives of coq/Model/Cql.v; only the error CLASS (Deserialization / WrongTokenRange / ShardNum) is observable through the hook, the leaf kind is not compared",
+        "byte payloads: the typed deserialisers of tuple<bigint,bigint,list<tuple<uuid,int>>> are modelled in coq/Model/TabletsPayload.v on top of the read primitives of coq/Model/Cql.v; the error class (Deserialization / WrongTokenRange / ShardNum) and, for Deserialization, the innermost kind of the nested error (ExpectedNonNull / ByteLengthMismatch / RawCqlBytesRead / LengthDeser, extracted by the harness' de_leaf) are compared exactly",
     ],
     "min_cases": {"quick": 160000, "thorough": 1200000},
     "post": _post,
